@@ -27,6 +27,8 @@ PS_Small == { q \in PS_Core : (q.sameStep => q.minS = 0) /\ (q.otherF # <<0, 0>>
 \* also after the deviation fired (deep behaviours are otherwise lost to the known finding)
 PS_Dev == { [q EXCEPT !.dev = TRUE] : q \in { q \in PS_Core : q.sub # <<FALSE, FALSE>> /\ ~q.sameStep } }
 PS_Sim == PS_Quick \cup PS_Dev
+\* thorough tier, one action deeper: the delayed-force convention only (the same-step one has no pipeline to get wrong)
+PS_Deep == { q \in PS_Core : ~q.sameStep }
 FS2_One == {<<-1, 2>>}
 PS_One == { Params(FALSE, 0, 1, NoPer, <<0, 0>>, TRUE, <<FALSE, FALSE>>, <<0, 0>>) }
 
